@@ -45,10 +45,25 @@ class Scheduler:
             self.nops[tid] = self.nops.get(tid, 0) + 1
             del self.pending[tid]
 
+    def thread_id(self):
+        """numba.get_thread_id() of the calling worker"""
+        return getattr(self.tls, 'tid', 0) or 0
+
     def par(self, body, n):
         n = int(n)
         if n <= 0:
             return
+        if getattr(self, 'nthreads', None):
+            # numba distributes the iterations of a prange over the worker threads in contiguous chunks; iterations of one
+            # worker run sequentially (they may share per-thread state indexed by get_thread_id())
+            T = min(int(self.nthreads), n)
+            bounds = [(n * t) // T for t in range(T + 1)]
+            inner = body
+
+            def chunk_body(t, inner=inner, bounds=bounds):
+                for i in range(bounds[t], bounds[t + 1]):
+                    inner(i)
+            body, n = chunk_body, T
         tids = list(range(n))
         self.pending, self.done, self.nops = {}, set(), {}
         self.active = True
